@@ -80,6 +80,9 @@ fn run_replay(job: &Value) {
                 let nvar = if thorough { vocab::FOREIGN.len() as u64 - 1 } else { job["foreign_variants"].as_u64().unwrap_or(7) };
                 let step = (vocab::FOREIGN.len() as u64 / (nvar + 1)).max(1);
                 for k in 1..=nvar { replay_string(&mut out, &e, &bv, &phs, i + k * step * 25 + k); }
+                // and every foreign character that resembles, or is encoded next to, a neighbour of the foreign position
+                let cs: Vec<String> = bv["chars"].as_array().unwrap().iter().map(|c| c.as_str().unwrap_or("").to_string()).collect();
+                for f in related_foreign(&cs) { replay_string_with(&mut out, &e, &bv, &phs, i, Some(f)); }
             }
             continue;
         }
